@@ -26,16 +26,18 @@ LEVEL = "exploration"
 RULE = (
     "Hypothesis draws 1-3 external variables (sizes 1-2), a tree of depth <=3 whose inner nodes are 'chain' "
     "(children see the writes of their elder siblings) or 'parallel' (children see the state before the node; "
-    "distinct written names) and whose <=9 leaves are polynomial disciplines of degree <=2 reading 1-3 visible "
-    "variables (biased to the most recent ones: diamonds, fan-in/out, pass-through) and writing new variables or "
-    "overwriting a visible one; per leaf the Jacobian container (dense, csr, JacobianOperator) and whether it "
-    "fills only the requested pairs. Top level: the tree itself (MDOChain/MDOParallelChain nesting), the leaves "
-    "flattened and shuffled into MDAChain (chain_linearize on/off, single assignment), or MDOAdditiveChain over "
-    "parallel children all writing the summed variable. Then 1-4 requests: execute, linearize(all), or "
-    "add_differentiated_inputs/outputs(subset)+linearize, at one of 1-2 drawn points. Reference: forward-mode "
-    "tangent propagation of the exact partials. Non-trivial = some output reached from an external variable by "
-    ">=2 paths (diamond) or an overwritten variable, and a strict-subset request that was answered; distinct = "
-    "structural hash of the payload."
+    "distinct written names) and whose <=9 leaves are polynomial disciplines of degree <=2 (one third purely linear) "
+    "reading 1-3 visible variables (biased to the most recent ones: diamonds, fan-in/out, pass-through) and writing new "
+    "variables, updating one of their inputs in place or overwriting any visible variable; per leaf the Jacobian "
+    "container (dense, csr, JacobianOperator) and whether it fills only the requested pairs. Top level: the tree itself "
+    "(MDOChain/MDOParallelChain nesting), the leaves flattened and shuffled into MDAChain (chain_linearize on/off, single "
+    "assignment), or MDOAdditiveChain over parallel children all writing the summed variable. Then 1-4 requests: execute, "
+    "linearize(compute_all_jacobians), or add_differentiated_inputs/outputs(subset)+linearize, at one of the 1-2 drawn "
+    "points or at the first point with only the last external variable moved (sub-discipline caches are hit). Six "
+    "hand-made payloads (diamond closing at a cached last member, linear in-place update; dense/csr/operator) are "
+    "run first. Reference: forward-mode tangent propagation of the exact partials along the execution order. "
+    "Non-trivial = some output reached from an external variable by >=2 paths (diamond) or an overwritten variable, "
+    "and a strict-subset request that was answered; distinct = structural hash of the payload."
 )
 ASSUMPTIONS = [
     "'for all input points' is sampled at 1-2 half-integer points per case; the disciplines are polynomials of degree <=2 "
@@ -45,6 +47,8 @@ ASSUMPTIONS = [
     "and MDAChain compositions are single-assignment: each variable has one producer",
     "requested names are inputs/outputs of the process grammar; the MDA residual-norm output is never requested",
     "extra blocks returned beyond the request are not judged",
+    "cases falling in the classes of the open ledger entries C09-F1..F8 are skipped (counted in excluded_by_known_finding); "
+    "the predicates are structural (computed from the payload), somewhat wider than the exact failing sets",
 ]
 
 LETTERS = ["a", "b", "m", "x", "z"]
@@ -609,8 +613,36 @@ def nested(node) -> bool:
     return node["k"] != "leaf" and any(c["k"] != "leaf" for c in node["c"])
 
 
-ORACLES = {"chain_rule": case_chain_rule}
+def _mk_leaf(ins, outs, jac="dense", fill="all", linear=False):
+    return {"k": "leaf", "ins": ins, "outs": outs, "jac": jac, "fill": fill, "linear": linear}
+
+
+def _mk_out(comps, over=None, size=1, letter=0):
+    return {"size": size, "over": over, "letter": letter, "comps": comps}
+
+
+def scenarios():
+    """A few hand-made payloads for shapes the random search reaches too rarely within the quick budget."""
+    lin = [[[-2.0, [0, 0]]]]
+    base = {"top": "tree", "sum_size": 1, "shuffle": 0, "points": [[1]]}
+    for jac in ("dense", "sparse", "operator"):
+        # diamond closing at the last member, which does not depend on the moved external variable: its cached
+        # Jacobian is reused for the second request
+        yield {**base, "ext": [{"letter": 0, "size": 1}, {"letter": 0, "size": 1}],
+               "root": {"k": "chain", "threads": 1, "c": [
+                   _mk_leaf([0], [_mk_out(lin)], jac), _mk_leaf([2], [_mk_out(lin)], jac),
+                   _mk_leaf([0, 3], [_mk_out([[[1.0, [0, 0]], [3.0, [1, 0]]]])], jac)]},
+               "ops": [{"op": "all", "pt": 0}, {"op": "all", "pt": 1}, {"op": "lin", "ins": [0], "outs": [2], "pt": 0}]}
+        # a linear in-place update followed by a reader
+        yield {**base, "ext": [{"letter": 0, "size": 1}],
+               "root": {"k": "chain", "threads": 1, "c": [
+                   _mk_leaf([0], [_mk_out(lin, over=["in", 0])], jac, linear=True), _mk_leaf([0], [_mk_out([[[1.0, [0, 0]]]])], jac)]},
+               "ops": [{"op": "lin", "ins": [0], "outs": [1], "pt": 0}, {"op": "all", "pt": 0}]}
+
+
+ORACLES = {"chain_rule": case_chain_rule, "scenarios": case_chain_rule}
 
 
 def run(ctx):
-    ctx.drive("chain_rule", compositions(), case_chain_rule, quick=500, thorough=3000)
+    ctx.enumerate("scenarios", scenarios(), case_chain_rule)
+    ctx.drive("chain_rule", compositions(), case_chain_rule, quick=420, thorough=3000)
